@@ -26,7 +26,7 @@ func familyCase(r *rng) int {
 	case "planted": // C01
 		return []int{0, 1, 1, 1, 3}[r.intn(5)]
 	case "edited": // C02
-		return []int{2, 2, 4, 5, 5, 3, 10, 11, 9}[r.intn(9)]
+		return []int{2, 2, 4, 5, 5, 3, 10, 11, 9, 15, 15}[r.intn(11)]
 	case "shifted": // C07
 		return []int{1, 5, 5, 2, 10, 8, 12, 13, 13}[r.intn(9)]
 	case "determinism": // C04
@@ -34,7 +34,7 @@ func familyCase(r *rng) int {
 	case "hostile": // C10
 		return []int{6, 7, 7, 4, 12, 12}[r.intn(6)]
 	}
-	return r.intn(15)
+	return r.intn(16)
 }
 
 func genericInputs(r *rng, docs []corpusDoc, n int) []input {
@@ -95,6 +95,29 @@ func genericInputs(r *rng, docs []corpusDoc, n int) []input {
 			}
 			pre := []string{"", oovBlock(r, 1+r.intn(12), 2), string(synthText(r, 1+r.intn(20))) + " "}[r.intn(3)]
 			ins = append(ins, input{"at-end:" + d.name, []byte(pre + strings.Join(ws[a:], " "))})
+		case 15: // the edit sits at the very end of the document: last word(s) substituted or dropped
+			ws := strings.Fields(string(d.text))
+			k := 1 + r.intn(2)
+			if len(ws) > k+2 {
+				switch r.intn(3) {
+				case 0:
+					ws = ws[:len(ws)-k]
+				case 1:
+					for j := 0; j < k; j++ {
+						ws[len(ws)-1-j] = []string{"x", "zz", "quux"}[r.intn(3)]
+					}
+				default:
+					ws = append(ws[:len(ws)-k], "zz")
+				}
+			}
+			x := strings.Join(ws, " ")
+			if r.chance(1, 2) {
+				x = oovBlock(r, 1+r.intn(10), 1) + "\n" + x
+			}
+			if r.chance(1, 3) {
+				x += "\n" + oovBlock(r, 1+r.intn(10), 1)
+			}
+			ins = append(ins, input{"tail-edit:" + d.name, []byte(x)})
 		case 14: // the longest exact run belongs to a partial copy below the threshold; the full copy is broken into shorter runs
 			ins = append(ins, input{"long-partial+broken-full:" + d.name, partialPlusBrokenFull(r, d.text)})
 		case 13: // q-gram hit density at / next to the detectRuns boundary, X first, last or in the middle
